@@ -178,7 +178,16 @@ func (obj *Hmm) normalizeTf(t1, t2 Scalar) error {
         }
       }
     }
-    return obj.Tf.Normalize()
+    if err := obj.Tf.Normalize(); err != nil {
+      return err
+    }
+    // Normalize() turns a row without any transition into a final
+    // state into a self-transition, remove it again
+    for i := 0; i < obj.M; i++ {
+      if _, ok := obj.finalStates[i]; !ok {
+        obj.Tf.At(i,i).SetFloat64(math.Inf(-1))
+      }
+    }
   }
   return nil
 }
